@@ -24,7 +24,8 @@ def gen(ctx, module, cfg, defines, timeout=900):
         raise vlib.MachineryError("%s %s failed: %s %s" % (module, cfg, r.error or r.violation, r.out[-500:]))
     if not r.cases:
         raise vlib.MachineryError("%s printed no case" % module)
-    return r.cases
+    # TLC's workers print in no fixed order: sort, so that the seeded choices below are reproducible
+    return sorted(r.cases, key=lambda c: json.dumps(c, sort_keys=True))
 
 
 def run(ctx, cmd, cases, keyf, label, timeout=1500):
